@@ -552,7 +552,7 @@ func c09sweep(idx int) run.Result {
 
 func init() {
 	run.Register(&run.Prop{
-		ID: "C09", Level: "fault_enumeration",
+		ID: "C09", PassiveWatchdog: true, Level: "fault_enumeration",
 		Rule: func(tier string) string {
 			return "the scenario space {no rule, common-name rule, rule + password, no rule / rule after the client CA was replaced across a restart, rule with an application-supplied tls.Config that makes client certificates optional} x {no certificate, self-signed, foreign CA, expired a day ago, expired two seconds ago, valid from in 30 seconds, right CA wrong name, right CA wrong name with the right name as a DNS subject alternative name, right name only on an intermediate, right CA right name, each of these ten once more as a client with a TLS session cache connecting three times (later handshakes resume the first session), plain-text bytes on the TLS port, abort after ClientHello, stall, garbage, 48 and 300 simultaneous stalled connections, 48 simultaneous garbage connections, 200 handshakes abandoned one after the other (closed at once, after half a ClientHello, reset, after a whole ClientHello: once no server goroutine is working the process must not hold their sockets any more)} x position relative to two well-behaved client pairs {before, between, after} = 504 scenarios is enumerated completely (thorough: 25 repetitions), each (in a process whose system trust store holds exactly the foreign CA) against a fresh server configured through the file-based TLS path with a PKI minted at run time, on real loopback sockets. Oracle: (gate) a recording handler keyed by a per-client token: the client is served iff its handshake completes with a chain to the CA and (no rule or its LEAF common name matches); (containment) after the faulty client - and while a stalled one is still connected - a valid TLS client and a plain client must each dial, handshake and be answered; 'valid client not served' is a violation only with a structural witness (dial refused, or the goroutine profile shows the accept loop inside Handshake). Plus an in-process sweep of the certificate rule through hook H1 with fabricated connection states (0..3 peer certificates, the name at each chain position)"
 		},
